@@ -340,6 +340,10 @@ func (m *Machine) callBuiltin(caller *frame, callpos token.Pos, fn *ssa.Builtin,
 		default:
 			panic(fmt.Sprintf("append of %T", src))
 		}
+		if m.lockset != nil && m.locksetOn && dst.a != nil && dst.len+len(add) <= dst.cap {
+			// in-place append writes the shared backing array
+			m.lockset.access(m, dst.a, true, callpos)
+		}
 		return m.appendSlice(dst, add, elemT)
 
 	case "copy":
@@ -376,6 +380,9 @@ func (m *Machine) callBuiltin(caller *frame, callpos token.Pos, fn *ssa.Builtin,
 
 	case "delete":
 		mp := args[0].(*Map)
+		if mp != nil && m.lockset != nil && m.locksetOn {
+			m.lockset.access(m, mp, true, callpos)
+		}
 		if mp != nil {
 			m.mapDelete(mp, args[1])
 		}
